@@ -22,6 +22,7 @@ ASSUMPTIONS = [
     "what executes next: accepted-step count (fault-free) or the bytes at the program counter read by the white-box probe (fault regime)",
     "lines longer than the tool's 1024-byte line buffer are compared up to the tool's own length",
 ]
+RERUN_PLAIN_AFTER_SANITIZER = True      # see core.evaluate_case
 TIERS = {
     "quick": {"cases": 12000, "flavours": ("asan",), "cap_s": 600},
     "thorough": {"cases": 250000, "flavours": ("asan",), "cap_s": 3 * 3600},
